@@ -429,6 +429,8 @@ def run(tier, seed):
     cfgs.append(MultiTanTree(size=(518, 60), rects=[(0, 0, 262, 60, 3), (255, 0, 400, 60, 0), (390, 0, 518, 60, 0)], bottom_up=True, W=2, io_points=False, max_deviations=2 if tier == "quick" else None))
     # the same stage fed from FITS files through toasty's collection loader with a blank value
     cfgs.append(stages.MultiTan(nimg=3, W=2, from_files=True, max_deviations=2 if tier == "quick" else 4))
+    # ... and from ONE multi-extension file listed once per extension
+    cfgs.append(stages.MultiTan(nimg=3, W=2, from_files=True, mef=True, max_deviations=2 if tier == "quick" else 4))
     for c in cfgs:
         c.seed = seed
     jobs = [("e1", c) for c in cfgs] + jobs
